@@ -365,3 +365,13 @@ func (m *Mesh) NodeByName(name string) *Node {
 	}
 	return nil
 }
+
+// IndexOf returns the index of the node whose agent id is id, or -1.
+func (m *Mesh) IndexOf(id identity.AgentID) int {
+	for i, n := range m.Nodes {
+		if n.ID == id {
+			return i
+		}
+	}
+	return -1
+}
